@@ -19,6 +19,7 @@ from operator import xor
 from typing import Any
 
 import numpy as np
+from pb_bss import _verif
 from dataclasses import dataclass
 from pb_bss.utils import unsqueeze
 
@@ -221,6 +222,7 @@ class GCACGMMTrainer:
                 spatial_weight=spatial_weight,
                 spectral_weight=spectral_weight
             )
+            _verif.trace(self, iteration, model, affiliation, quadratic_form)
 
         return model
 
